@@ -9,6 +9,7 @@ namespace Ipv8.C05
 structure AeadLaws {B : Type} (A : Aead B) : Prop where
   dec_enc : ∀ k d b, A.dec k d (A.enc k d b) = some b
   dec_some : ∀ k d c b, A.dec k d c = some b → c = A.enc k d b
+  enc_inj : ∀ k d b k' d' b', A.enc k d b = A.enc k' d' b' → k = k' ∧ d = d' ∧ b = b'
   parse_plain : ∀ m, A.parse (A.plain m) = some m
 
 /-- the symbolic instance satisfies the laws: the hypothesis bundle is satisfiable -/
@@ -30,6 +31,13 @@ theorem sym_laws : AeadLaws sym where
           rfl
         · cases h
   parse_plain := by intro m; simp [sym]
+  enc_inj := by
+    intro k d b k' d' b' h
+    cases b; cases b'
+    simp [sym] at h
+    obtain ⟨⟨⟨h1, h2⟩, h3⟩, h4⟩ := h
+    subst h1; subst h2; subst h3; subst h4
+    exact ⟨rfl, rfl, rfl⟩
 
 /-! ### dict lemmas -/
 theorem get_set_self {α : Type} (l : List (Nat × α)) (k : Nat) (v : α) : get (set l k v) k = some v := by
@@ -110,7 +118,8 @@ inductive ForeignEv {B : Type} (A : Aead B) (n : Node) : Ev B → Prop where
       A.parse c.body = some (.created ident key authPk dhRef) → popCreate n.creates ident = none →
       (∀ circ, get n.circuits c.cid = some circ → ¬ (circ.retry ≠ 0 ∧ circ.retry = ident)) →
       ForeignEv A n (.cell src c ch)
-  | destroy (signer cid : Nat) (ok : Bool) : ¬ (ok = true ∧ Adjacent n signer cid) → ForeignEv A n (.destroy signer cid ok)
+  | destroy (signer cid : Nat) (ok : Bool) (reason : Nat) : ¬ (ok = true ∧ Adjacent n signer cid) →
+      ForeignEv A n (.destroy signer cid ok reason)
 
 end Ipv8.C05
 
@@ -218,29 +227,19 @@ def through {B : Type} (A : Aead B) : List Node → Node → Nat → Cell B → 
     | _ => none
 
 /-- the forward relay entries of ONE circuit along a list of nodes: node i holds, under the id the cell arrives
-    with, a forward entry whose next id is the id node i+1 knows; nothing is said about any other entry -/
-def FwdChain : List (Node × Relay) → Nat → Nat → Prop
+    with, a forward entry whose next id is the id node i+1 knows; nothing is said about any other entry.  `re` is the
+    cell's relay_early flag: a flagged cell additionally needs relay_early budget at every relay, an unflagged one
+    (all steady-state traffic) needs nothing -/
+def FwdChain (re : Bool) : List (Node × Relay) → Nat → Nat → Prop
   | [], cid, last => cid = last
   | (n, nx) :: t, cid, last =>
-    get n.relays cid = some nx ∧ nx.dir = .fwd ∧ nx.reCount < maxRE ∧ FwdChain t nx.next last
+    get n.relays cid = some nx ∧ nx.dir = .fwd ∧ (re = false ∨ nx.reCount < maxRE) ∧ FwdChain re t nx.next last
 
 /-- the same for the way back -/
-def BwdChain : List (Node × Relay) → Nat → Nat → Prop
+def BwdChain (re : Bool) : List (Node × Relay) → Nat → Nat → Prop
   | [], cid, last => cid = last
   | (n, nx) :: t, cid, last =>
-    get n.relays cid = some nx ∧ nx.dir = .bwd ∧ nx.reCount < maxRE ∧ BwdChain t nx.next last
-
-/-! concrete nodes for the non-vacuity examples in Props.lean: two relays that carry circuit (500→600→700) and,
-    sharing relay 1 and node 2, a second circuit (501→601); node 3 is the exit of the first -/
-def exR1 : Node := { Node.init 1 with relays := [(500, ⟨600, ⟨2, 2, 71⟩, .fwd, 1⟩), (600, ⟨500, ⟨9, 9, 71⟩, .bwd, 1⟩),
-                                                 (501, ⟨601, ⟨2, 2, 81⟩, .fwd, 1⟩), (601, ⟨501, ⟨8, 8, 81⟩, .bwd, 1⟩)] }
-def exR2 : Node := { Node.init 2 with relays := [(600, ⟨700, ⟨3, 3, 72⟩, .fwd, 1⟩), (700, ⟨600, ⟨1, 1, 72⟩, .bwd, 1⟩)],
-                                      exits := [(601, ⟨⟨1, 1, 82⟩, 3, []⟩)], created := [600, 601] }
-def exX : Node := { Node.init 3 with exits := [(700, ⟨⟨2, 2, 73⟩, 3, []⟩)], created := [700] }
-def exO : Node := { Node.init 9 with circuits := [(500, ⟨3, [⟨1, 1, 71⟩, ⟨2, 0, 72⟩, ⟨3, 0, 73⟩], none, 0, 3⟩)] }
-
-/-- an originator (node 9) whose circuit 500 has ONE verified hop (key 71) and is being extended to a second -/
-def exO1 : Node := { Node.init 9 with circuits := [(500, ⟨3, [⟨1, 1, 71⟩], some ⟨2, 0, 99⟩, 5, 2⟩)] }
+    get n.relays cid = some nx ∧ nx.dir = .bwd ∧ (re = false ∨ nx.reCount < maxRE) ∧ BwdChain re t nx.next last
 
 end Ipv8.C05
 
@@ -412,7 +411,11 @@ theorem onCreated_qo (n : Node) (cid ident key authPk dhRef : Nat) (ch : Choice)
   · dsimp only
     split
     · exact qo_same rfl hq
-    · exact qo_del _ (by dsimp only; rw [sendMsg_exits]) hq
+    · split
+      · exact qo_same rfl hq
+      · split
+        · exact qo_same rfl hq
+        · exact qo_del _ (by dsimp only; rw [sendMsg_exits]) hq
   · split
     · exact hq
     · split
@@ -475,8 +478,8 @@ theorem processCell_qo (n : Node) (src : Nat) (c : Cell B) (ch : Choice) (hq : Q
             | pong ident => exact hq
             | other mid => exact hq
 
-theorem onDestroy_qo (n : Node) (signer cid : Nat) (ok : Bool) (hq : QueueOwn n) :
-    QueueOwn (onDestroy (B := B) n signer cid ok).1 := by
+theorem onDestroy_qo (n : Node) (signer cid : Nat) (ok : Bool) (reason : Nat) (hq : QueueOwn n) :
+    QueueOwn (onDestroy (B := B) n signer cid ok reason).1 := by
   unfold onDestroy
   split
   · exact hq
@@ -510,206 +513,38 @@ def exQ : Node := { Node.init 3 with exits := [(700, ⟨⟨2, 2, 73⟩, 2, [(700
 
 instance (n : Node) : Decidable (QueueOwn n) := by unfold QueueOwn; exact inferInstance
 
-/-! ### a pending extension blocks re-creation of the id it extends -/
-
-/-- every pending CreateRequestCache (an EXTEND was accepted, the CREATED is not back yet) refers to an id that is
-    still in the created-cache — which is what makes `on_create` refuse that id -/
+/-- (NOT an invariant of the code: the 60 s created-cache and the 10 s create-cache run on independent timers) every
+    pending CreateRequestCache refers to an id that is still in the created-cache -/
 def PendingCovered (n : Node) : Prop := ∀ rq ∈ n.creates, n.created.contains rq.fromId = true
 
-/-- how one step may change the two caches: pending requests only disappear, or appear for ids in the created-cache;
-    the created-cache only grows — or both caches are emptied together (time-out tick) -/
-def CC (n n' : Node) : Prop :=
-  ((∀ x ∈ n'.creates, x ∈ n.creates ∨ n.created.contains x.fromId = true) ∧ (∀ c ∈ n.created, c ∈ n'.created)) ∨
-  n'.creates = []
+theorem dec_other_key_none {B : Type} {A : Aead B} (L : AeadLaws A) (k k' : Nat) (d d' : Dir) (x : B)
+    (h : ¬ (k' = k ∧ d' = d)) : A.dec k d (A.enc k' d' x) = none := by
+  cases hd : A.dec k d (A.enc k' d' x) with
+  | none => rfl
+  | some b =>
+    have h1 := L.dec_some _ _ _ _ hd
+    have h2 := L.enc_inj _ _ _ _ _ _ h1
+    exact absurd ⟨h2.1, h2.2.1⟩ h
 
-theorem pc_of_cc {n n' : Node} (h : CC n n') (hp : PendingCovered n) : PendingCovered n' := by
-  cases h with
-  | inr h0 => intro rq hrq; rw [h0] at hrq; cases hrq
-  | inl h =>
-    intro rq hrq
-    have hin : n.created.contains rq.fromId = true := by
-      cases h.1 rq hrq with
-      | inl h1 => exact hp rq h1
-      | inr h1 => exact h1
-    simp only [List.contains_iff_mem] at hin ⊢
-    exact h.2 _ hin
-
-theorem cc_same {n n' : Node} (h1 : n'.creates = n.creates) (h2 : n'.created = n.created) : CC n n' :=
-  Or.inl ⟨fun x hx => Or.inl (h1 ▸ hx), fun c hc => h2 ▸ hc⟩
-
-theorem popCreate_sub (l : List CreateReq) (k : Nat) (r : CreateReq) (rest : List CreateReq) :
-    popCreate l k = some (r, rest) → ∀ x ∈ rest, x ∈ l := by
-  induction l generalizing rest with
-  | nil => intro h; simp [popCreate] at h
-  | cons hd t ih =>
-    intro h x hx
-    unfold popCreate at h
-    split at h
-    · cases h
-      exact List.mem_cons_of_mem _ hx
-    · split at h
-      · rename_i y t' heq
-        cases h
-        cases hx with
-        | head => exact List.mem_cons_self
-        | tail _ hx' => exact List.mem_cons_of_mem _ (ih t' heq x hx')
-      · cases h
-
-section
-variable {B : Type} (A : Aead B)
-
-theorem sendCell_cc (n : Node) (dst : Nat) (c : Cell B) (x : Bool) :
-    (sendCell A n dst c x).1.creates = n.creates ∧ (sendCell A n dst c x).1.created = n.created := by
+theorem sendCell_relays {B : Type} (A : Aead B) (n : Node) (dst : Nat) (c : Cell B) (x : Bool) :
+    (sendCell A n dst c x).1.relays = n.relays ∧ (sendCell A n dst c x).1.exits = n.exits := by
   unfold sendCell
   cases get n.circuits c.cid <;> (dsimp only; split <;> exact ⟨rfl, rfl⟩)
 
-theorem sendMsg_cc (n : Node) (dst cid : Nat) (m : Msg) :
-    (sendMsg A n dst cid m).1.creates = n.creates ∧ (sendMsg A n dst cid m).1.created = n.created :=
-  sendCell_cc A n dst _ _
-
-theorem oursCreated_cc (n : Node) (cid : Nat) (circ : Circ) (key authPk dhRef : Nat) (ch : Choice) :
-    CC n (oursCreated A n cid circ key authPk dhRef ch).1 := by
-  unfold oursCreated
-  repeat' (first
-    | exact cc_same rfl rfl
-    | exact cc_same (sendMsg_cc A _ _ _ _).1 (sendMsg_cc A _ _ _ _).2
-    | split
-    | dsimp only)
-
-theorem onCreate_cc (n : Node) (src cid ident pk dh : Nat) : CC n (onCreate A n src cid ident pk dh).1 := by
-  unfold onCreate
-  split
-  · exact cc_same rfl rfl
-  · split
-    · exact cc_same rfl rfl
-    · split
-      · exact cc_same rfl rfl
-      · dsimp only
-        refine Or.inl ⟨fun x hx => Or.inl ?_, fun c hc => ?_⟩
-        · rw [(sendMsg_cc A _ _ _ _).1] at hx; exact hx
-        · rw [(sendMsg_cc A _ _ _ _).2]; exact List.mem_append_left _ hc
-
-theorem onCreated_cc (n : Node) (cid ident key authPk dhRef : Nat) (ch : Choice) :
-    CC n (onCreated A n cid ident key authPk dhRef ch).1 := by
-  unfold onCreated
-  cases hpop : popCreate n.creates ident with
-  | none =>
-    dsimp only
-    split
-    · exact cc_same rfl rfl
-    · split
-      · exact oursCreated_cc A _ _ _ _ _ _ _
-      · exact cc_same rfl rfl
-  | some pr =>
-    obtain ⟨rq, rest⟩ := pr
-    have hsub := popCreate_sub _ _ _ _ hpop
-    dsimp only
-    split
-    · exact Or.inl ⟨fun x hx => Or.inl (hsub x hx), fun c hc => hc⟩
-    · dsimp only
-      refine Or.inl ⟨fun x hx => Or.inl ?_, fun c hc => ?_⟩
-      · rw [(sendMsg_cc A _ _ _ _).1] at hx; exact hsub x hx
-      · rw [(sendMsg_cc A _ _ _ _).2]; exact hc
-
-theorem onExtend_cc (n : Node) (cid ident dh : Nat) (ch : Choice) : CC n (onExtend A n cid ident dh ch).1 := by
-  unfold onExtend
-  by_cases hc : n.created.contains cid = true
-  · simp only [hc, Bool.not_true, Bool.false_eq_true, if_false]
-    split
-    · exact cc_same rfl rfl
-    · split
-      · exact cc_same rfl rfl
-      · refine Or.inl ⟨fun x hx => ?_, fun c hc' => ?_⟩
-        · rw [(sendMsg_cc A _ _ _ _).1] at hx
-          simp only [List.mem_append, List.mem_singleton] at hx
-          cases hx with
-          | inl h => exact Or.inl h
-          | inr h => subst h; exact Or.inr hc
-        · rw [(sendMsg_cc A _ _ _ _).2]; exact hc'
-  · have : n.created.contains cid = false := by simpa using hc
-    simp only [this, Bool.not_false, if_true]
-    exact cc_same rfl rfl
-
-theorem onExtended_cc (n : Node) (cid ident key authPk dhRef : Nat) (ch : Choice) :
-    CC n (onExtended A n cid ident key authPk dhRef ch).1 := by
-  unfold onExtended
-  repeat' (first
-    | exact cc_same rfl rfl
-    | exact oursCreated_cc A _ _ _ _ _ _ _
-    | split)
-
-theorem exitData_cc (n : Node) (src cid dest tag : Nat) : CC n (exitData (B := B) n src cid dest tag).1 := by
-  unfold exitData
-  repeat' (first | exact cc_same rfl rfl | split | dsimp only)
-
-theorem onData_cc (n : Node) (src cid dest org tag : Nat) : CC n (onData (B := B) n src cid dest org tag).1 := by
-  have key : ∀ b : Bool, CC n ((if b = true then (n, [Out.rawIn cid org tag])
-      else if dest = 0 then (n, []) else exitData n src cid dest tag : Node × List (Out B))).1 := by
-    intro b
-    cases b
-    · by_cases hd : dest = 0
-      · simp only [Bool.false_eq_true, if_false, hd, if_true]; exact cc_same rfl rfl
-      · simp only [Bool.false_eq_true, if_false, hd]; exact exitData_cc n src cid dest tag
-    · simp only [if_true]; exact cc_same rfl rfl
-  unfold onData
-  exact key _
-
-theorem onPing_cc (n : Node) (src cid ident : Nat) : CC n (onPing A n src cid ident).1 := by
-  unfold onPing
-  split
-  · exact cc_same (sendMsg_cc A _ _ _ _).1 (sendMsg_cc A _ _ _ _).2
-  · exact cc_same rfl rfl
-
-theorem relayCell_cc (n : Node) (c : Cell B) (nx : Relay) : CC n (relayCell A n c nx).1 := by
-  unfold relayCell
-  repeat' (first | exact cc_same rfl rfl | split | dsimp only)
-
-theorem processCell_cc (n : Node) (src : Nat) (c : Cell B) (ch : Choice) : CC n (processCell A n src c ch).1 := by
-  unfold processCell
-  cases hr : get n.relays c.cid with
-  | some nx => exact relayCell_cc A _ _ _
-  | none =>
-    dsimp only
-    cases hin : inCrypto A n c with
-    | none => exact cc_same rfl rfl
-    | some b =>
-      dsimp only
-      cases hp : A.parse b with
-      | none => exact cc_same rfl rfl
-      | some m =>
-        dsimp only
-        split
-        · exact cc_same rfl rfl
-        · split
-          · exact cc_same rfl rfl
-          · cases m with
-            | data dest org tag => exact onData_cc n src c.cid dest org tag
-            | create ident pk dh => exact onCreate_cc A n src c.cid ident pk dh
-            | created ident key authPk dhRef => exact onCreated_cc A n c.cid ident key authPk dhRef ch
-            | extend ident pk dh => exact onExtend_cc A n c.cid ident dh ch
-            | extended ident key authPk dhRef => exact onExtended_cc A n c.cid ident key authPk dhRef ch
-            | ping ident => exact onPing_cc A n src c.cid ident
-            | pong ident => exact cc_same rfl rfl
-            | other mid => exact cc_same rfl rfl
-
-theorem onDestroy_cc (n : Node) (signer cid : Nat) (ok : Bool) : CC n (onDestroy (B := B) n signer cid ok).1 := by
-  unfold onDestroy destroyLocal destroyCircuit
-  repeat' (first | exact cc_same rfl rfl | split | dsimp only)
-
-theorem pingAll_cc (n : Node) (l : List (Nat × Circ)) :
-    (pingAll A n l).1.creates = n.creates ∧ (pingAll A n l).1.created = n.created := by
-  induction l generalizing n with
-  | nil => exact ⟨rfl, rfl⟩
-  | cons p t ih =>
-    obtain ⟨cid, c⟩ := p
-    unfold pingAll
-    split
-    · dsimp only
-      exact ⟨(ih _).1.trans (sendMsg_cc A _ _ _ _).1, (ih _).2.trans (sendMsg_cc A _ _ _ _).2⟩
-    · exact ih n
-
-end
 /-- a node whose exit entry 700 was removed while its extension (to id 900 at peer 4) is still pending -/
 def exP : Node := { Node.init 3 with created := [700], creates := [⟨5, 9, 900, 700, ⟨2, 2, 0⟩, ⟨4, 4, 0⟩⟩] }
+
+/-! concrete nodes for the non-vacuity examples in Props.lean: two relays that carry circuit (500→600→700) and,
+    sharing relay 1 and node 2, a second circuit (501→601); node 3 is the exit of the first -/
+def exR1 : Node := { Node.init 1 with relays := [(500, ⟨600, ⟨2, 2, 71⟩, .fwd, 1⟩), (600, ⟨500, ⟨9, 9, 71⟩, .bwd, 1⟩),
+                                                 (501, ⟨601, ⟨2, 2, 81⟩, .fwd, 1⟩), (601, ⟨501, ⟨8, 8, 81⟩, .bwd, 1⟩)] }
+def exR2 : Node := { Node.init 2 with relays := [(600, ⟨700, ⟨3, 3, 72⟩, .fwd, 1⟩), (700, ⟨600, ⟨1, 1, 72⟩, .bwd, 1⟩)],
+                                      exits := [(601, ⟨⟨1, 1, 82⟩, 3, []⟩)], created := [600, 601] }
+def exX : Node := { Node.init 3 with exits := [(700, ⟨⟨2, 2, 73⟩, 3, []⟩)], created := [700] }
+/-- relay 1 after a long life: both entries of circuit 500/600 have relayed far more than 8 cells -/
+def exR1old : Node := { Node.init 1 with relays := [(500, ⟨600, ⟨2, 2, 71⟩, .fwd, 4000⟩), (600, ⟨500, ⟨9, 9, 71⟩, .bwd, 3000⟩)] }
+def exO : Node := { Node.init 9 with circuits := [(500, ⟨3, [⟨1, 1, 71⟩, ⟨2, 0, 72⟩, ⟨3, 0, 73⟩], none, 0, 3⟩)] }
+/-- an originator (node 9) whose circuit 500 has ONE verified hop (key 71) and is being extended to a second -/
+def exO1 : Node := { Node.init 9 with circuits := [(500, ⟨3, [⟨1, 1, 71⟩], some ⟨2, 0, 99⟩, 5, 2⟩)] }
 
 end Ipv8.C05
